@@ -32,7 +32,8 @@ CODES = {
 RULE = ("tie-rich elections (2..8 projects named p00..p07, 60 % with >= 6; all-equal / two-valued / pooled / fractional "
         "costs; budgets that are multiples of the common cost or sums of subsets; ballots all-approve-all, party lists, "
         "nested chains, duplicated ballots, random; approval 70 %, cardinal, cumulative, ordinal; Profile or "
-        "MultiProfile) x calls {sequential Phragmen under all four shipped tie-breaking rules; Equal Shares, greedy and "
+        "MultiProfile) x calls {sequential Phragmen under all four shipped tie-breaking rules; Equal Shares (plain, and once "
+        "per election with voter_budget_increment, the increment scaled like money), greedy and "
         "the PRIMAL_DUAL welfare maximiser under 2 exactly-computed measures each and lexicographic + another shipped "
         "tie-breaking rule} x presentations {as given (run twice); 2 voter permutations; 2 project insertion orders; "
         "costs and budget scaled by 1/3, 7, 10/7, 1000; one combination of all three (run twice)} x one interpreter per "
@@ -47,11 +48,15 @@ TRUSTED = ["harness/vharness/props/c13_helper.py (runs the library under each ha
            "Model/Phragmen.v, Model/GreedyRule.v mirror the rules (modelled, not verified)"]
 EXPLANATION = ("Theorems (models, unbounded): sequential Phragmen (resolute and irresolute) returns the same result "
                "for every enumeration order of the project set, every order of the voters and every positive scale "
-               "factor, via one simulation theorem; the pre-R6 model is refuted on the 6-project witness; greedy: "
-               "name-sorting makes the candidate list independent of the enumeration, invariance under pointwise "
-               "equal satisfactions and under scaling; see Props/C13.v for what is still UNPROVED (Equal Shares, "
-               "knapsack).  Tie: every outcome of every presentation/seed/repetition is handed to Coq, which decides "
-               "equality; Phragmen outcomes are also compared with the model.")
+               "factor, via one simulation theorem; greedy: name-sorting makes the candidate lists independent of the "
+               "enumeration, same outcome under permuted satisfaction-profile entries and under scaling (k for money, "
+               "j for satisfactions); welfare maximiser: the attained welfare is invariant / scales by j (from the C04 "
+               "optimality theorem); Equal Shares: scaling (resolute, irresolute, iterated) by a step-by-step "
+               "simulation, the R6 step (tie order independent of collection order) and the refutation of the pre-R6 "
+               "models of Equal Shares and Phragmen on the 6-project witness.  UNPROVED: enumeration- and voter-order "
+               "independence of whole Equal Shares runs (Props/C13.v).  Tie: every outcome of every "
+               "presentation/seed/repetition is handed to Coq, which decides equality (C13_oracle_sound); Phragmen "
+               "outcomes are also compared with the model.")
 
 TBS_APPROVAL = ["lexico", "app_score", "min_cost", "max_cost"]
 TBS_OTHER = ["lexico", "min_cost", "max_cost"]
@@ -148,6 +153,9 @@ def _gen_calls(rng, btype):
                 if rule == "greedy":
                     c["additive"] = None if (s == "CC_Sat" or rng.random() < 0.7) else False
                 calls.append(c)
+    # Equal Shares with the budget-increase loop (voter_budget_increment), one configuration per election
+    calls.append({"rule": "mes_iter", "sat": rng.choice(table["mes"][:2]), "tb": rng.choice(tbs),
+                  "inc": rng.choice(["1/1", "1/2", "1/3", "2/1"])})
     sats = []
     for s in (rng.choice(table["maxw"][:2]), rng.choice(table["maxw"])):
         if s not in sats:
